@@ -131,7 +131,13 @@ func probe(gamePort int, specs []string) []string {
 		if err != nil {
 			return []string{"bad-op"}
 		}
-		r, err := u.NewResponder(ds, time.Duration(delay)*time.Millisecond, false)
+		// a game port just below the top of the port range: the candidates are the very last ports, 65535 included
+		// (the i-th responder listens on game port + 1 + i)
+		at := 0
+		if gamePort >= 65000 && gamePort+1+i <= 65535 {
+			at = gamePort + 1 + i
+		}
+		r, err := u.NewResponderAt(at, ds, time.Duration(delay)*time.Millisecond, false)
 		if err != nil {
 			return []string{"harness-error:listen"}
 		}
@@ -317,6 +323,7 @@ func gen(rng *rand.Rand, tier core.Tier, emit core.Emit) {
 	for i := 0; i < 30*k; i++ {
 		genProbe(rng, emit)
 	}
+	genProbeHigh(rng, emit)
 	// (5) every candidate port answers at once, each in a different dialect: whatever the real arrival order and however
 	// quickly the probing goroutines finish, the most capable dialect must be kept (many repetitions: the window is narrow)
 	for i := 0; i < 400*k; i++ {
@@ -350,12 +357,29 @@ func detailsStatus(rng *rand.Rand, hostport string, withHostport bool) u.Status 
 }
 
 func genProbe(rng *rand.Rand, emit core.Emit) {
-	gamePort := 10480
-	n := 1 + rng.Intn(4)
+	genProbeAt(rng, emit, 10480, 1+rng.Intn(4), false)
+}
+
+// genProbeHigh: servers whose game port is 65531 … 65534: their query candidates end at 65535, the last legal port
+func genProbeHigh(rng *rand.Rand, emit core.Emit) {
+	for gp := 65531; gp <= 65534; gp++ {
+		genProbeAt(rng, emit, gp, 65535-gp, false)
+		genProbeAt(rng, emit, gp, 65535-gp, true) // only the listener on 65535 answers
+	}
+}
+
+func genProbeAt(rng *rand.Rand, emit core.Emit, gamePort int, n int, onlyLast bool) {
 	delays := rng.Perm(n)
 	specs := make([]string, n)
 	for i := 0; i < n; i++ {
-		switch r := rng.Intn(10); {
+		r := rng.Intn(10)
+		if onlyLast {
+			r = 5
+			if i < n-1 {
+				r = 0
+			}
+		}
+		switch {
 		case r == 0:
 			specs[i] = []string{"x", "x", "w"}[rng.Intn(3)]
 		case r == 1: // answers garbage
@@ -364,7 +388,11 @@ func genProbe(rng *rand.Rand, emit core.Emit) {
 			d := u.Dialects[rng.Intn(len(u.Dialects))]
 			hp := strconv.Itoa(gamePort)
 			with := true
-			switch rng.Intn(8) {
+			v := rng.Intn(8)
+			if onlyLast {
+				v = 7
+			}
+			switch v {
 			case 0:
 				hp = strconv.Itoa(gamePort + 1 + rng.Intn(3))
 			case 1:
